@@ -27,6 +27,12 @@ theorem defaultDialTimeout_eq_3s : Gen.defaultDialTimeoutNs = 3 * 1000000000 := 
 theorem semaphore_created_before_any_dial : Gen.dialOnceShape = (true, true, 0) := by decide
 
 
+/-- No attempt bypasses the semaphore: every `tryDial` call in `dial` — the DisableDNSResolution shortcut and every
+    iteration of the address loop, first try and fail-over tries alike — is handed the dialer's own `d.concurrencyCh`
+    (fact regenerated from tcpdialer.go on every run).  In the model `dialLoop` passes the same `hasSem` to every try, and
+    each try is one `spawn … dialDone` actor of the semaphore system, so the bound below counts connect ATTEMPTS. -/
+theorem every_attempt_uses_the_semaphore : Gen.dialTryDialSemArgs = ["d.concurrencyCh", "d.concurrencyCh"] := by decide
+
 /-- A TCPDialer with Concurrency N > 0 never has more than N dials in progress — for EVERY interleaving of the
     atomic steps of any number of concurrent `tryDial` calls; the dials in progress are exactly the occupied slots. -/
 theorem in_progress_le_N (N : Nat) (hN : 0 < N) (evs : List Ev) (s : State)
